@@ -1335,7 +1335,7 @@ class Normalizer:
         return False
 
     # -- what may be inlined ---------------------------------------------------------
-    def _inlinable_def(self, fdef):
+    def _inlinable_def(self, fdef, closure=False):
         a = fdef.args
         if a.vararg or a.kwarg or a.posonlyargs:
             return False
@@ -1343,7 +1343,10 @@ class Normalizer:
         if any(d not in ("staticmethod",) for d in decos):
             return False
         for n in ast.walk(fdef):
-            if isinstance(n, (ast.Yield, ast.YieldFrom, ast.Await, ast.Global, ast.Nonlocal)):
+            if isinstance(n, (ast.Yield, ast.YieldFrom, ast.Await, ast.Global)):
+                return False
+            # `nonlocal x` in a local closure: spliced into its enclosing function, x simply is that function's x
+            if isinstance(n, ast.Nonlocal) and not closure:
                 return False
         return True
 
@@ -1483,7 +1486,7 @@ class Normalizer:
         out = []
         saved = dict(self._closures)
         for st in stmts:
-            if isinstance(st, ast.FunctionDef) and not st.decorator_list and self._inlinable_def(st) and self._closure_only_called(st, state):
+            if isinstance(st, ast.FunctionDef) and not st.decorator_list and self._inlinable_def(st, closure=True) and self._closure_only_called(st, state):
                 # N12: a local function that is only ever called: its calls further down this block are inlined like any helper
                 self._closures[st.name] = st
                 out.append(st)
@@ -1770,7 +1773,10 @@ class Normalizer:
                 binding[p] = d
         if any(p not in binding for p in params):
             return None
-        hl = _local_names(helper) - ({"self"} if bound else set())
+        nonlocals = {nm_ for n_ in ast.walk(helper) if isinstance(n_, ast.Nonlocal) for nm_ in n_.names}
+        if nonlocals:
+            helper.body = [s_ for s_ in helper.body if not isinstance(s_, ast.Nonlocal)] or [ast.copy_location(ast.Pass(), helper)]
+        hl = _local_names(helper) - ({"self"} if bound else set()) - nonlocals
         assigned = set()
         for n in ast.walk(ast.Module(body=helper.body, type_ignores=[])):
             if isinstance(n, ast.Name) and isinstance(n.ctx, (ast.Store, ast.Del)):
